@@ -72,9 +72,9 @@ def run(ctx):
     n_prog = ctx.pick(60, 600)
     budgets = ctx.pick([100, 2], [100, 1, 2, 5])
     depth = ctx.pick(5, 7)
-    progs = list(gen.corpus())
+    progs = lib.replay_programs(ctx) or list(gen.corpus())
     feats = {}
-    while len(progs) < n_prog:
+    while len(progs) < n_prog and not ctx.replay:
         g = gen.G(ctx.rng, guard=(ctx.rng.random() < 0.7), allow_nested_reassign=False)
         p = g.program()
         progs.append((p, [], "+".join(sorted(g.features))))
@@ -102,6 +102,7 @@ def run(ctx):
             errs["not-modelled"] = errs.get("not-modelled", 0) + 1
             continue
         cases.append({"i": i, "budget": b, "flat": flat, "term": term, "term2": term2, "text": P.prog_text(p), "tag": tag,
+                      "pj": P.to_json(p),
                       "flat_text": r.get("flat_text")})
     files = []
     per = 40
@@ -161,7 +162,7 @@ def run(ctx):
         if wit:
             n, x, v = wit
             sig = KNOWN_SITE if at_known_site else f"untyped-value:{c['text']}"
-            new = ctx.violation(sig, {"program_text": c["text"], "flat_program": c["flat_text"], "variable": x, "value": str(v),
+            new = ctx.violation(sig, {"program_text": c["text"], "prog_json": c["pj"], "flat_program": c["flat_text"], "variable": x, "value": str(v),
                                       "iteration": n, "types": c["flat"]["types"], "fp_iterations": c["budget"]},
                                 f"variable {x} holds {v} after {n} iterations, outside its inferred type "
                                 f"{dict((a, b) for a, b in c['flat']['types']).get(x)} (fp_iterations={c['budget']})")
@@ -173,7 +174,7 @@ def run(ctx):
             ctx.coverage["obligations"] -= 1
             ctx.coverage["unvalidated_at_known_site"] = ctx.coverage.get("unvalidated_at_known_site", 0) + 1
         else:
-            ctx.violation(f"types-not-validated:{c['text']}", {"program_text": c["text"], "flat_program": c["flat_text"],
+            ctx.violation(f"types-not-validated:{c['text']}", {"program_text": c["text"], "prog_json": c["pj"], "flat_program": c["flat_text"],
                                                                 "types": c["flat"]["types"], "status": c["status"], "why": c.get("why")},
                           f"check_types {c['status']} Polar's types but no reachable state within {depth} iterations is outside them",
                           no_input=True)
